@@ -778,4 +778,13 @@ def _rejects_at_boundary(test: ast.expr) -> Optional[bool]:
 
 message_strictness.rule_id = "C20.MESSAGE-STRICTNESS"
 
-RULES = [one_sided_tol, one_sided_range, guard_eval, guard_table, lifecycle_state, signed_magnitude, message_strictness]
+def perpendicular_scale_free(repo: Repo) -> RuleRun:
+    from ..dims import perpendicular_guards_rule
+
+    return perpendicular_guards_rule(repo, PROP, "C20.PERPENDICULAR-SCALE-FREE")
+
+
+perpendicular_scale_free.rule_id = "C20.PERPENDICULAR-SCALE-FREE"
+
+
+RULES = [one_sided_tol, one_sided_range, guard_eval, guard_table, lifecycle_state, signed_magnitude, message_strictness, perpendicular_scale_free]
